@@ -674,6 +674,10 @@ func (c *Ctx) boundsJustified(in ssa.Instruction, outer []core.Lit) (string, boo
 				}
 			}
 		}
+		// 7b. half reversal: i counts up from 0 under i < len/2; the indices are i and len-1-i
+		if c.halfReversal(ri, x, lits) {
+			return sh, true, "half reversal: 0 <= i < len/2, the indices are i and len-1-i"
+		}
 		// 7. two-pointer reversal
 		if c.twoPointer(ri, x, lits) {
 			return sh, true, "two-pointer walk: 0 <= i < j <= len-1 (i counts up from 0, j down from len-1, loop condition i < j)"
@@ -1034,6 +1038,41 @@ func lenGuard(l core.Lit, x ssa.Value, need int64) bool {
 		return k >= need
 	case op == token.GEQ && pol, op == token.LSS && !pol:
 		return k > need
+	}
+	return false
+}
+
+// halfReversal: v is i or len(x)-1-i for a counter i (from 0, +1) under the loop condition i < len(x)/2.
+func (c *Ctx) halfReversal(v, x ssa.Value, lits []core.Lit) bool {
+	for _, l := range lits {
+		if l.Kind != "cmp" || l.Op != token.LSS || !l.Pol {
+			continue
+		}
+		i, ok := l.X.(*ssa.Phi)
+		if !ok || !isCounter(i) {
+			continue
+		}
+		q, ok := c.res(l.Y).(*ssa.BinOp)
+		if !ok || q.Op != token.QUO {
+			continue
+		}
+		if k, ok := core.ConstInt(q.Y); !ok || k != 2 || !c.isLenOf(c.res(q.X), x) {
+			continue
+		}
+		if v == ssa.Value(i) {
+			return true
+		}
+		// len-1-i
+		if b, ok := v.(*ssa.BinOp); ok && b.Op == token.SUB && (b.Y == ssa.Value(i) || c.res(b.Y) == ssa.Value(i)) {
+			if c.isLenMinus1(c.res(b.X), x) {
+				return true
+			}
+			if a, ok := c.res(b.X).(*ssa.BinOp); ok && a.Op == token.SUB {
+				if k, ok := core.ConstInt(a.Y); ok && k == 1 && c.isLenOf(c.res(a.X), x) {
+					return true
+				}
+			}
+		}
 	}
 	return false
 }
